@@ -670,6 +670,15 @@ type c05eModel struct {
 	} `json:"tasks"`
 	Results []gcase5.ResultJ `json:"results"` // under the other probed completion schedules
 	WF      bool             `json:"wf"`
+	// the interrupt/resume model of eager mode (Model/C05Eager.lean) on this case, per completion
+	// schedule: is the resumed history equivalent to the uninterrupted eager run for the repaired
+	// drain site (pending) / the shipped one (refold)?
+	Interrupt []struct {
+		Sched   string `json:"sched"`
+		Pending bool   `json:"pending"`
+		Refold  bool   `json:"refold"`
+		Calls   int    `json:"calls"`
+	} `json:"interrupt"`
 }
 
 // the execution that stands for the (outer) invocation of a top-level node
@@ -1157,6 +1166,20 @@ func c05eOne(ctx *vh.Ctx, c *c05eCase, shrink bool) error {
 		}
 		if !model.WF {
 			ctx.Res.Dist("eager-model-wf-hypothesis=false")
+		}
+		// the unproved full statement of the eager interrupt model, tested inside the model
+		refoldLoses := false
+		for _, iv := range model.Interrupt {
+			if !iv.Pending {
+				ctx.Res.Disagree(vh.Disagreement{Signature: prop + ":eager:model:pending-not-equivalent", What: "Lean model of the eager interrupt/resume loop (Model/C05Eager.lean), repaired drain site: the resumed history is not equivalent to the uninterrupted eager run under completion schedule " + iv.Sched, Case: c, Model: model})
+				break
+			}
+			if !iv.Refold {
+				refoldLoses = true
+			}
+		}
+		if refoldLoses {
+			ctx.Res.Dist("eager-model-refold-variant-not-equivalent(some schedule)")
 		}
 	}
 	h := c05eRun(c, false)
